@@ -4,6 +4,7 @@ package e2
 import (
 	"encoding/json"
 	"math"
+	"time"
 
 	"github.com/confluentinc/confluent-kafka-go/kafka"
 
@@ -21,8 +22,56 @@ import (
 
 const sentinelPartition = 9999
 
+// genRetry generates one retry scenario: (7 cfg parts (attempt...) cancel); each failed attempt costs the
+// hard-wired 3 s of the retry ticker, so only a couple of them are generated per run.
+func genRetry(r *sx.Rng) sx.Tree {
+	base := Gen(r, 1000, "")
+	natt := int(r.Range(2, 3))
+	atts := []sx.Tree{}
+	succeeded := false
+	for k := 0; k < natt; k++ {
+		a := Gen(r.Fork(), 1000, "")
+		com, wms, af := base.At(2), base.At(3), sx.B(false)
+		_ = a
+		last := k == natt-1
+		if !last || r.Chance(30) {
+			switch r.Intn(3) {
+			case 0:
+				com = sx.T()
+			case 1:
+				if base.At(3).Len() > 0 {
+					w := append([]sx.Tree(nil), base.At(3).Kids...)
+					w[r.Intn(len(w))] = sx.T()
+					wms = sx.T(w...)
+				} else {
+					com = sx.T()
+				}
+			default:
+				af = sx.B(true)
+			}
+		} else {
+			succeeded = true
+		}
+		if base.At(2).Len() == 0 && com.Len() != 0 {
+			com = sx.T(sx.T())
+		}
+		atts = append(atts, sx.T(com, wms, af))
+	}
+	cancel := int64(9)
+	if !succeeded || r.Chance(30) {
+		cancel = r.Range(0, int64(natt)-2)
+		if cancel < 0 {
+			cancel = 0
+		}
+	}
+	return sx.T(sx.L(7), base.At(0), base.At(1), sx.T(atts...), sx.L(cancel))
+}
+
 // Gen generates one case.
 func Gen(r *sx.Rng, idx int, focus string) sx.Tree {
+	if idx < 2 {
+		return genRetry(r)
+	}
 	big := func() int64 { return sx.Pick(r, int64(1)<<40, int64(1)<<62, (int64(1)<<62)-1, int64(1)<<31) }
 	var maxlag int64
 	switch r.Intn(6) {
@@ -141,8 +190,102 @@ func b2i(b bool) int64 {
 	return 0
 }
 
+// runRetry drives retryAssignPartitions with per-attempt broker scripts; a revocation (RevokeV, as the Kafka
+// client's RevokedPartitions event triggers) arrives 1.5 s after the attempt after which the scenario cancels.
+func runRetry(in sx.Tree) sx.Tree {
+	cfg := in.At(1)
+	maxlag, recov, maxrec := cfg.At(0).Int(), cfg.At(1).Bool(), cfg.At(2).Int()
+	topic := "t"
+	var parts []kafka.TopicPartition
+	for _, p := range in.At(2).Kids {
+		parts = append(parts, kafka.TopicPartition{Topic: &topic, Partition: int32(p.Int())})
+	}
+	main := fake.NewConsumer()
+	for _, a := range in.At(3).Kids {
+		ans := fake.CommittedAnswer{}
+		if a.At(0).Len() == 0 {
+			ans.Err = true
+		} else {
+			for _, e := range a.At(0).At(0).Kids {
+				ans.Res = append(ans.Res, kafka.TopicPartition{Topic: &topic, Partition: int32(e.At(0).Int()), Offset: kafka.Offset(e.At(1).Int())})
+			}
+			// the watermark answers this attempt will consume: up to and including its first error
+			for i, w := range a.At(1).Kids {
+				if i >= len(parts) {
+					break
+				}
+				if w.Len() == 0 {
+					main.Watermarks = append(main.Watermarks, fake.Wm{Err: true})
+					break
+				}
+				main.Watermarks = append(main.Watermarks, fake.Wm{Low: w.At(0).Int(), High: w.At(1).Int()})
+			}
+		}
+		main.CommittedScript = append(main.CommittedScript, ans)
+	}
+	// Assign is reached only by attempts whose queries all succeeded
+	for _, a := range in.At(3).Kids {
+		ok := a.At(0).Len() != 0
+		for i, w := range a.At(1).Kids {
+			if i < len(parts) && w.Len() == 0 {
+				ok = false
+			}
+		}
+		if ok {
+			main.AssignErrScript = append(main.AssignErrScript, a.At(2).Bool())
+		}
+	}
+	main.CommittedErr = true // beyond the script every attempt fails (the scenario always ends before)
+	ctx := &fake.Ctx{}
+	out := make(chan firebolt.Event, 16)
+	var rc *kafkaconsumer.RecoveryConsumer
+	if recov {
+		rc = kafkaconsumer.NewRecoveryConsumerV(fake.NewConsumer(), topic, out, int(maxrec), 1000, ctx)
+		rc.SetAssignedPartitions([]kafka.TopicPartition{{Topic: &topic, Partition: sentinelPartition}})
+	}
+	k := kafkaconsumer.NewKafkaConsumerV(main, topic, out, int(maxlag), rc, ctx)
+	done := make(chan struct{})
+	go func() {
+		k.RetryAssignPartitionsV(parts)
+		close(done)
+	}()
+	cancel := in.At(4).Int()
+	if cancel < int64(in.At(3).Len()) {
+		// revocation between attempt cancel+1 and the next tick
+		timer := time.After(time.Duration(cancel)*3*time.Second + 1500*time.Millisecond)
+		select {
+		case <-done:
+		case <-timer:
+			k.RevokeV()
+		}
+	}
+	select {
+	case <-done:
+	case <-time.After(time.Duration(in.At(3).Len())*3*time.Second + 2*time.Second):
+	}
+	assigns := []sx.Tree{}
+	for _, a := range main.Assigns {
+		assigns = append(assigns, tps(a))
+	}
+	sent := []sx.Tree{}
+	for _, m := range ctx.Sent {
+		sent = append(sent, DecodeSnapshot(m.Key, m.Payload))
+	}
+	owned := sx.T()
+	if rc != nil {
+		ap := rc.AssignedPartitionsV()
+		if !(len(ap) == 1 && ap[0].Partition == sentinelPartition) {
+			owned = sx.T(tps(ap))
+		}
+	}
+	return sx.T(sx.L(int64(main.CommittedCalls)), sx.T(assigns...), sx.T(sent...), owned)
+}
+
 // Run executes one case against the real code.
 func Run(in sx.Tree) sx.Tree {
+	if in.Len() == 5 && in.At(0).IsLeaf && in.At(0).Int() == 7 {
+		return runRetry(in)
+	}
 	cfg := in.At(0)
 	maxlag, recov, maxrec := cfg.At(0).Int(), cfg.At(1).Bool(), cfg.At(2).Int()
 	topic := "t"
